@@ -483,6 +483,20 @@ def oracle_case(ctx, p, pos, freq):
         e = np.abs(d - ref[:, 0]).max()
         if not e <= 1e-9 * scale:
             return "DFT probe differs from the isochromat by %.3g" % e
+    # positions with FEWER components than stored wavenumber axes: the isochromat sits at the position padded with zeros
+    for c in range(1, min(kd, 3)):
+        posc = pos.copy(); posc[:, c:] = 0
+        refc = bloch(p, posc, freq)[:, 0]
+        d = np.asarray(utils.imaging(pos[:, :c], sm.F, sm.k[..., :3], acctime=sm.t if sm.kdim == 4 else None,
+                                     modulation=1j * freq, voxel_shape="point", reduce=False)).reshape(-1, len(pos))[0]
+        e = np.abs(d - refc).max()
+        if not e <= 1e-9 * scale:
+            return "utils.imaging with %d-component positions on %d wavenumber axes differs from the isochromat at (x, 0..) by %.3g" % (c, kd, e)
+        if sm.kdim < 4:
+            d = np.asarray(epg.DFT(pos[:, :c]).acquire(sm)).reshape(-1, len(pos))[0]
+            e = np.abs(d - refc).max()
+            if not e <= 1e-9 * scale:
+                return "DFT probe with %d-component positions on %d wavenumber axes differs from the isochromat at (x, 0..) by %.3g" % (c, kd, e)
     return None
 
 
@@ -542,6 +556,16 @@ def gen_batched_dims(rng):
         shp = () if (i and rng.random() < 0.35) else kshape
         tab = batched_vectors(rng, shp, d, [0, 1, -1, 1, 2])
         ops.append(("Sb", (tab * scale).tolist(), typ))
+    if typ == "int" and rng.random() < 0.6:
+        # integer tables have given the coordinates a batch axis; now an UN-batched real-valued shift that is NOT a
+        # multiple of the grid (the merge back-end keeps such wavenumbers exactly)
+        for _ in range(rng.randint(1, 2)):
+            d = rng.choice([1, 2, 3])
+            v = [rng.choice([0.0, 0.37, -1.234, 0.5, 0.123]) for _ in range(d)]
+            if not any(x % 0.5 for x in v):
+                v[rng.randrange(d)] = rng.choice([0.37, -1.234, 0.123])
+            ops.append(("Tb", (al * rng.choice([1.0, 0.5])).tolist(), rng.choice([0.0, 10.0, 75.0])))
+            ops.append(("Sb", v, "float"))
     return {"fam": "batched-dims-%s-%s" % (typ, layout), "ops": ops, "kvalue": rng.choice([1.0, 2.5]), "tvalue": rng.choice([1.0, 2.0]),
             "kgrid": 1.0 / 1024, "reuse": True, "nb": nb, "scalar_reruns": True}
 
